@@ -12,7 +12,16 @@ from opacus.optimizers import DPOptimizer, DPPerLayerOptimizer, AdaClipDPOptimiz
 from opacus.utils.fast_gradient_clipping_utils import DPLossFastGradientClipping
 
 
+class ScaledLinear(nn.Linear):
+    """a user layer DERIVED from nn.Linear that computes something else: no registered sampler applies to it"""
+
+    def forward(self, x):
+        return nn.functional.linear(x, self.weight * 3.0, self.bias)
+
+
 def make_model(kind, rank):
+    if kind == 'sublinear':
+        return nn.Sequential(ScaledLinear(4, 5), nn.Tanh(), nn.Linear(5, 3)), (4,), 'float'
     if kind == 'mlp':
         return nn.Sequential(nn.Linear(4, 5), nn.Tanh(), nn.Linear(5, 3)), (4,), 'float'
     if kind == 'linear_nobias':
@@ -150,9 +159,15 @@ def step_case(case):
         return r
     torch.normal = wn
     try:
-        opt.zero_grad()
-        crit(gsm(X), T).backward()
-        opt.step()
+        k = max(1, min(case.get('split', 1), n))
+        bounds = [round(i * n / k) for i in range(k + 1)]
+        chunks = [(bounds[i], bounds[i + 1]) for i in range(k) if bounds[i + 1] > bounds[i]]
+        for ci, (a, b) in enumerate(chunks):       # physical batches of one logical batch (what BatchMemoryManager does)
+            if len(chunks) > 1:
+                opt.signal_skip_step(do_skip=(ci < len(chunks) - 1))
+            opt.zero_grad()
+            crit(gsm(X[a:b]), T[a:b]).backward()
+            opt.step()
     finally:
         torch.normal = orig
     C = case['C']
